@@ -135,3 +135,27 @@ Check C01_resolve_sound_in_every_reached_state :
   forall dk roots s n F,
     reached dk roots s -> F <> [] -> K_import_provenance dk roots s None F n = false ->
     allowed dk roots s F n (closest dk roots s F n) = true.
+
+(** ** where a relative import lands: a relative import of [level] dots in a file of directory
+    [base] names a file exactly [level - 1] directories above [base] (below it by the dotted
+    module path, as [mod.py] or as the package's [__init__.py]) - never a same-named module
+    one directory too deep or too high, whatever the disk holds there *)
+From PLS Require Import Proofs.RelImport.
+Theorem C01_relative_import_location :
+  forall dk s level mods base p,
+    (0 < level)%N -> resolve_relative dk s level mods base = Some p ->
+    (N.to_nat (level - 1) <= length base)%nat /\
+    match mods with
+    | [] => p = init_py :: skipn (N.to_nat (level - 1)) base
+    | _ => p = module_py mods (skipn (N.to_nat (level - 1)) base) \/ p = package_init mods (skipn (N.to_nat (level - 1)) base)
+    end.
+Proof. exact resolve_relative_location. Qed.
+Print Assumptions C01_relative_import_location.
+
+(** counting the dots in pairs (seeded change S91) finds the decoy one directory too deep *)
+Theorem C01_relative_import_pairs_refuted :
+  resolve_relative dk_s91 empty_index 3%N ["shared"] ["b"; "a"; "root"] = Some ["shared.py"; "root"] /\
+  resolve_relative_pairs dk_s91 empty_index 3%N ["shared"] ["b"; "a"; "root"] = Some ["shared.py"; "a"; "root"] /\
+  resolve_relative_pairs dk_s91 empty_index 2%N ["shared"] ["b"; "a"; "root"] =
+  resolve_relative dk_s91 empty_index 2%N ["shared"] ["b"; "a"; "root"].
+Proof. exact resolve_relative_pairs_refuted. Qed.
